@@ -388,5 +388,120 @@ theorem Steps.pick {pre post : List Nat} {t : Nat} {s s' : Sess}
   exact ⟨s1, spec, h1, hf, find?_id hf, h2, h1.log_notin hpre, fun o => h1.reports_notin hpre,
     h2.log_notin hpost, fun o => h2.reports_notin hpost⟩
 
+/-! ## skip closure -/
+
+/-- The task carries `@pytask.mark.skip` or a `skipif` mark whose condition is true. -/
+def UserSkipped (P : Project) (a : Nat) : Prop :=
+  ∃ spec, Project.find? P a = some spec ∧ (spec.skip = true ∨ spec.skipif = true)
+
+/-- A user-skipped task or one of its transitive dependants. -/
+def InSkipClosure (P : Project) (g : G) (t : Nat) : Prop :=
+  ∃ a, UserSkipped P a ∧ (t = a ∨ t ∈ taskDesc g a)
+
+/-- When a task of the skip closure (or a task that already carries an injected skip mark) is
+picked, the skipping implementation raises for it — provided all its task-ancestors were picked
+before (which the scheduler guarantees). -/
+theorem Steps.skipCond_at {pre : List Nat} {t : Nat} {s s1 : Sess} {spec : TaskSpec}
+    (h1 : Steps F P g cfg s pre s1) (hf : Project.find? P t = some spec)
+    (hord : ∀ a ∈ taskAnc g t, a ∈ pre)
+    (hb : t ∈ s.skipMarks ∨ InSkipClosure P g t) : SkipCond s1 spec := by
+  have hid := find?_id hf
+  rcases hb with hm | ⟨a, ⟨spa, hfa, hflag⟩, rfl | hd⟩
+  · exact .inr (.inr (hid ▸ h1.skipMarks_mono t hm))
+  · rw [hf] at hfa
+    cases hfa
+    rcases hflag with h | h
+    · exact .inl h
+    · exact .inr (.inl h)
+  · have hapre : a ∈ pre := hord a (mem_taskDesc_iff_mem_taskAnc.1 hd)
+    obtain ⟨p1, p2, rfl⟩ := List.append_of_mem hapre
+    obtain ⟨sa, spa', ha1, hfa', ha2⟩ := h1.at
+    rw [hfa] at hfa'
+    cases hfa'
+    have hsk : SkipCond sa spa := by
+      rcases hflag with h | h
+      · exact .inl h
+      · exact .inr (.inl h)
+    rw [protocol_skipped hsk] at ha2
+    have := ha2.skipMarks_mono t (by simp [find?_id hfa, hd])
+    exact .inr (.inr (hid ▸ this))
+
+/-- Main lemma for C06: in a run in which no task is picked twice and ancestors are picked first, a
+task that carries an injected skip mark from the start (deselected) or lies in the skip closure
+never has its body invoked, and its only possible new report is SKIP (which it gets iff it is picked). -/
+theorem Steps.skipped_result {picks : List Nat} {s s' : Sess}
+    (h : Steps F P g cfg s picks s') (hnd : picks.Nodup)
+    (hord : ∀ pre t post, picks = pre ++ t :: post → ∀ a ∈ taskAnc g t, a ∈ pre)
+    {t : Nat} (hb : t ∈ s.skipMarks ∨ InSkipClosure P g t) :
+    (t ∈ s'.log ↔ t ∈ s.log) ∧
+    (∀ o, (t, o) ∈ s'.reports ↔ ((t, o) ∈ s.reports ∨ (t ∈ picks ∧ o = Outcome.skip))) := by
+  by_cases hp : t ∈ picks
+  · obtain ⟨pre, post, rfl⟩ := List.append_of_mem hp
+    obtain ⟨s1, spec, h1, hf, hid, h2, hl1, hr1, hl2, hr2⟩ := h.pick hnd
+    have hsk : SkipCond s1 spec := h1.skipCond_at hf (hord pre t post rfl) hb
+    rw [protocol_skipped hsk] at hl2 hr2
+    refine ⟨by rw [hl2]; exact hl1, ?_⟩
+    intro o
+    rw [hr2 o]
+    simp only [List.mem_append, List.mem_singleton, Prod.mk.injEq, hid, true_and, hr1 o, hp]
+  · refine ⟨h.log_notin hp, fun o => ?_⟩
+    rw [h.reports_notin hp]
+    simp [hp]
+
+/-! ## from `build` to `Steps` -/
+
+/-- What `build` does once `create_dag` succeeded: the scheduler accepts the DAG, the loop is a
+`Steps` run from the session that carries the deselection marks; no task is picked twice and every
+task is picked after all its task-ancestors. -/
+theorem build_run {F : BodyFn} {P : Project} {cfg : Cfg} {w : World} {picks : List Nat} {r : Result}
+    {g : G} {marks : List Nat}
+    (hd : createDag P cfg = .ok (g, marks)) (hb : build F P cfg w picks = .ok r) :
+    ∃ (so so' : Sorter) (s' : Sess),
+      Sorter.fromDag g isTaskV (prioFn P) = .ok so ∧
+      buildLoop F P g cfg so { w := w, skipMarks := marks } picks = .ok (so', s') ∧
+      Steps F P g cfg { w := w, skipMarks := marks } picks s' ∧ picks.Nodup ∧
+      (∀ pre t post, picks = pre ++ t :: post → ∀ a ∈ taskAnc g t, a ∈ pre) ∧
+      r.reports = s'.reports ∧ r.log = s'.log ∧ r.w = s'.w ∧
+      r.exit = (if s'.crashed then ladderCode "Exception"
+                else if s'.reports.any (fun r => r.2 == .fail) then ladderCode "ExecutionError" else exitCode "OK") ∧
+      r.complete = (s'.stop || s'.crashed || !so'.isActive) := by
+  have hacyc := (createDag_ok hd).2.2
+  unfold build at hb
+  rw [hd] at hb
+  simp only [] at hb
+  have hso : Sorter.fromDag g isTaskV (prioFn P) =
+      .ok { nodes := g.nodes.filter isTaskV,
+            edges := (g.nodes.filter isTaskV).flatMap (fun t => ((g.anc t).filter isTaskV).map (fun a => (a, t))),
+            prio := prioFn P, processing := [], done := [] } := by
+    unfold Sorter.fromDag
+    simp [hacyc]
+  rw [hso] at hb
+  simp only [] at hb
+  split at hb
+  · cases hb
+  rename_i so' s' hloop
+  simp only [Except.ok.injEq] at hb
+  subst hb
+  refine ⟨_, so', s', hso, hloop, buildLoop_steps F P g cfg picks _ _ so' s' hloop, ?_, ?_, rfl, rfl, rfl, rfl, rfl⟩
+  · obtain ⟨hd0, hp0⟩ := fromDag_init hso
+    have hr0 := Reach.init _ hd0 hp0
+    obtain ⟨hr1, _, _, _⟩ := buildLoop_order F P g cfg picks _ _ _ [] so' s' hr0 hd0 hloop
+    have hnd : (picks.map tv).Nodup := by simpa using (reach_inv hr1).hnodup
+    exact (List.pairwise_map.1 hnd).imp (fun hne heq => hne (by rw [heq]))
+  · intro pre t post hp a ha
+    obtain ⟨hd0, hp0⟩ := fromDag_init hso
+    have hr0 := Reach.init _ hd0 hp0
+    obtain ⟨_, _, hord, _⟩ := buildLoop_order F P g cfg picks _ _ _ [] so' s' hr0 hd0 hloop
+    have hv := (mem_taskAnc.1 ha)
+    have key := buildLoop_picked_node F P g cfg picks _ _ so' s' hloop t (by rw [hp]; simp)
+    rw [fromDag_nodes hso] at key
+    have htn : tv t ∈ g.nodes ∧ isTaskV (tv t) = true := by simpa using key
+    have hanc : tv a ∈ g.anc (tv t) := G.mem_anc.2 ⟨hv.1, fun e => hv.2 (tv_injective e)⟩
+    have hedge := (fromDag_edges hso (tv a) (tv t)).2 ⟨htn.1, htn.2, hanc, isTaskV_tv a⟩
+    have := hord pre t post hp (tv a) hedge
+    simp only [List.nil_append, List.mem_map] at this
+    obtain ⟨a', ha', hv'⟩ := this
+    exact tv_injective hv' ▸ ha'
+
 end Engine
 end Pytask
